@@ -11,6 +11,10 @@
 -/
 import MitmVerif.Model.C50
 import MitmVerif.Model.C50_Https
+import MitmVerif.Model.C50_Codecs
+import MitmVerif.Lemmas.C35Str
+import MitmVerif.Lemmas.C25
+import MitmVerif.Lemmas.C22Render
 import MitmVerif.Props.C49
 import Std.Data.String.ToNat
 namespace MitmVerif.Props.C50
@@ -494,5 +498,371 @@ example : unpack asciiCodec [0, 1, 0, 0, 3, 0, 2, 1, 0xbb, 0, 3, 0, 2, 0x20, 0xf
 example : reencode asciiCodec [0xff, 0xff, 1, 0x61, 0, 0, 3, 0, 2, 1, 0xbb, 0, 1, 0, 3, 2, 0x68, 0x32] =
     some [0xff, 0xff, 1, 0x61, 0, 0, 3, 0, 2, 1, 0xbb, 0, 1, 0, 3, 2, 0x68, 0x32] := by decide +kernel
 example : (unpack asciiCodec [0x80, 0, 0]).map (·.pri) = some (-32768) := by decide +kernel
+
+end MitmVerif.Props.C50
+
+/-! ### the TXT and NS/CNAME/PTR codecs as transcriptions (Model/C50_Codecs.lean, over C35's UTF-8 and C25's name codec) -/
+namespace MitmVerif.Props.C50
+open MitmVerif MitmVerif.C49 MitmVerif.C50 MitmVerif.C50.Codecs
+
+/-- **TXT.** strict UTF-8: whatever `data.decode("utf-8")` accepts, `text.encode("utf-8")` restores (no hypothesis) -/
+theorem utf8_dec_enc (b : Bytes) (s : List Nat) (h : utf8Dec b = some s) : utf8Enc s = some b := by
+  unfold utf8Dec at h
+  split at h
+  · cases h
+  · rename_i hesc
+    cases h
+    simp only [utf8Enc, hesc, Bool.false_eq_true, if_false]
+    exact MitmVerif.C35.StrLemmas.encode_decF b.length b (Nat.le_refl _)
+
+private theorem scanRaw_inv : ∀ (k : Nat) (s : Bytes), s.length ≤ k → ∀ ls n, C25.scanRaw s = some (ls, n, none) →
+    ∃ rest, s = C25.wire ls ++ 0 :: rest ∧ n = (C25.wire ls).length + 1 := by
+  intro k
+  induction k with
+  | zero =>
+    intro s hs ls n h
+    have : s = [] := List.length_eq_zero_iff.mp (by omega)
+    subst this; rw [C25.scanRaw_nil] at h; cases h
+  | succ k ih =>
+    intro s hs ls n h
+    cases s with
+    | nil => rw [C25.scanRaw_nil] at h; cases h
+    | cons sz rest =>
+      rw [C25.scanRaw_cons] at h
+      split at h
+      · split at h <;> cases h
+      · split at h
+        · cases h
+        · split at h
+          · rename_i h0
+            cases h
+            have : sz = 0 := C25.uint8_eq_zero h0
+            subst this
+            exact ⟨rest, by simp [C25.wire], by simp [C25.wire]⟩
+          · split at h
+            · cases h
+            · rename_i hnp hn64 hn0 hlen
+              cases hr : C25.scanRaw (rest.drop sz.toNat) with
+              | none => simp [hr] at h
+              | some r =>
+                obtain ⟨ls', n', p'⟩ := r
+                simp only [hr, Option.some.injEq, Prod.mk.injEq] at h
+                obtain ⟨hls, hn, hp⟩ := h
+                subst hls hn hp
+                have hdl : (rest.drop sz.toNat).length ≤ k := by
+                  simp only [List.length_drop, List.length_cons] at hs ⊢; omega
+                obtain ⟨rest', hs', hn'⟩ := ih _ hdl _ _ hr
+                have hlt : rest.length ≥ sz.toNat := by omega
+                have htake : (rest.take sz.toNat).length = sz.toNat := by simp [List.length_take]; omega
+                have hsz : UInt8.ofNat (rest.take sz.toNat).length = sz := by rw [htake]; simp
+                refine ⟨rest', ?_, ?_⟩
+                · rw [C25.wire_cons, hsz]
+                  simp only [List.cons_append, List.append_assoc]
+                  rw [← hs', List.take_append_drop]
+                · rw [C25.wire_cons, hn']
+                  simp only [List.length_cons, List.length_append, htake]; omega
+
+private theorem mapLabels_packParts (I : C25.Idna) : ∀ (ls : List Bytes) (ps : List C25.Text),
+    (∀ l ∈ ls, l ≠ [] ∧ l.length < 64) → C25.mapLabels I ls = some ps →
+    C25.packParts I ps = some (C25.wire ls) ∧ (∀ p ∈ ps, ¬ (46 : UInt8) ∈ p) ∧ ps.length = ls.length := by
+  intro ls
+  induction ls with
+  | nil => intro ps _ h; simp [C25.mapLabels] at h; subst h; simp [C25.packParts, C25.wire]
+  | cons l ls ih =>
+    intro ps hok h
+    simp only [C25.mapLabels] at h
+    cases hd : C25.decLabel I l with
+    | none => simp [hd] at h
+    | some t =>
+      cases hm : C25.mapLabels I ls with
+      | none => simp [hd, hm] at h
+      | some ts =>
+        simp only [hd, hm, Option.some.injEq] at h
+        subst h
+        obtain ⟨hne, hl⟩ := hok l (by simp)
+        have henc := C25.decLabel_encPart hd hne hl
+        obtain ⟨hp, hdots, hlen⟩ := ih ts (fun x hx => hok x (by simp [hx])) hm
+        refine ⟨?_, ?_, by simp [hlen]⟩
+        · simp only [C25.packParts, henc, hp, C25.wire_cons]
+        · intro p hpmem
+          simp only [List.mem_cons] at hpmem
+          rcases hpmem with rfl | hpm
+          · exact (C25.decLabel_cases hd).1
+          · exact hdots p hpm
+
+/-- **NS / CNAME / PTR.** whatever `domain_names.unpack` accepts, `domain_names.pack` restores byte for byte —
+    for every `Idna` (no law about Python's idna codec is needed: `_unpack_label_into` keeps only canonical spellings) -/
+theorem name_dec_enc (I : C25.Idna) (b : Bytes) (n : C25.Text) (h : unpackPlain I b = some n) :
+    C25.packName I n = some b := by
+  unfold unpackPlain at h
+  cases hs : C25.scanRaw b with
+  | none => simp [hs] at h
+  | some r =>
+    obtain ⟨ls, k, p⟩ := r
+    cases p with
+    | some t => simp [hs] at h
+    | none =>
+      simp only [hs] at h
+      split at h
+      · rename_i hk
+        cases hm : C25.mapLabels I ls with
+        | none => simp [hm] at h
+        | some ps =>
+          simp only [hm, Option.map_some, Option.some.injEq] at h
+          subst h
+          obtain ⟨rest, hb, hk'⟩ := scanRaw_inv b.length b (Nat.le_refl _) ls k hs
+          have hrest : rest = [] := by
+            have : b.length = (C25.wire ls).length + 1 + rest.length := by rw [hb]; simp; omega
+            exact List.length_eq_zero_iff.mp (by omega)
+          subst hrest
+          have hok := C25.scanRaw_labels_ok b.length b (Nat.le_refl _) ls k none hs
+          obtain ⟨hp, hdots, hlen⟩ := mapLabels_packParts I ls ps hok hm
+          cases ps with
+          | nil =>
+            have : ls = [] := List.length_eq_zero_iff.mp (by simpa using hlen.symm)
+            subst this
+            simp [C25.joinDot, C25.packName, hb, C25.wire]
+          | cons p0 prest =>
+            have hne : C25.joinDot (p0 :: prest) ≠ [] := by
+              have hp0 : p0 ≠ [] := by
+                cases ls with
+                | nil => simp at hlen
+                | cons l0 lrest =>
+                  simp only [C25.mapLabels] at hm
+                  cases hd : C25.decLabel I l0 with
+                  | none => simp [hd] at hm
+                  | some t =>
+                    cases hm2 : C25.mapLabels I lrest with
+                    | none => simp [hd, hm2] at hm
+                    | some ts =>
+                      simp only [hd, hm2, Option.some.injEq, List.cons.injEq] at hm
+                      obtain ⟨rfl, _⟩ := hm
+                      exact C25.decLabel_ne_nil hd (hok l0 (by simp)).1
+              cases prest with
+              | nil => simpa [C25.joinDot] using hp0
+              | cons p1 pr => simp [C25.joinDot]
+            simp only [C25.packName, hne, if_false]
+            rw [C25.splitDot_joinDot (p0 :: prest) (by simp) hdots, hp, hb]
+            simp
+      · cases h
+
+private theorem bytesOf_textOf (t : C25.Text) : bytesOf (textOf t) = t := by
+  induction t with
+  | nil => rfl
+  | cons c r ih => simp only [textOf, bytesOf, List.map_cons, List.map_map] at ih ⊢; simp [ih]
+
+/-- the codec with TXT and NS/CNAME/PTR transcribed satisfies the codec laws as soon as the remaining types (A, AAAA, HTTPS)
+    do: for the four loose types — the ones behind F-C50b — "the decoder accepts ⇒ the setter restores" is a theorem -/
+theorem transcribed_codec_laws (I : C25.Idna) (O : Codec) (LO : CodecLaws O) : CodecLaws (realCodec I O) where
+  dec_enc := by
+    intro t b j h
+    simp only [realCodec] at h ⊢
+    by_cases h16 : t = 16
+    · simp only [h16, if_true] at h ⊢
+      cases hd : utf8Dec b with
+      | none => simp [hd] at h
+      | some s => simp only [hd, Option.map_some, Option.some.injEq] at h; subst h; exact utf8_dec_enc b s hd
+    · simp only [h16, if_false] at h ⊢
+      by_cases hn : isNameType t = true
+      · simp only [hn, if_true] at h ⊢
+        cases hd : unpackPlain I b with
+        | none => simp [hd] at h
+        | some n =>
+          simp only [hd, Option.map_some, Option.some.injEq] at h; subst h
+          simp only [bytesOf_textOf]; exact name_dec_enc I b n hd
+      · simp only [hn, Bool.false_eq_true, if_false] at h ⊢
+        exact LO.dec_enc t b j h
+  strict_rejects := by
+    intro t tn b hs
+    have h16 : t ≠ 16 := by intro h; subst h; revert hs; decide
+    have hn : isNameType t = false := by
+      cases hnt : isNameType t with
+      | false => rfl
+      | true =>
+        simp only [isNameType, Bool.or_eq_true, beq_iff_eq] at hnt
+        rcases hnt with (rfl | rfl) | rfl <;> revert hs <;> decide
+    simp only [realCodec, h16, if_false, hn, Bool.false_eq_true]
+    exact LO.strict_rejects t tn b hs
+
+/-- **C50 (DNS view round trip, TXT/NS/CNAME/PTR codecs transcribed).** As `dns_view_roundtrip_partial`, for the codec
+    whose TXT and name parts are the transcriptions: the parameters left are YAML, Python's idna codec for ACE labels
+    (no law needed) and the A / AAAA / HTTPS part `O` (HTTPS: `https_reencode_exact`). -/
+theorem dns_view_roundtrip_transcribed (Y : Yaml) (I : C25.Idna) (O : Codec) (LO : CodecLaws O) (m : Msg)
+    (hclean : Clean (Y.dump (toJson (realCodec I O) m)))
+    (hload : (Y.load (Y.dump (toJson (realCodec I O) m))).bind (fromJson (realCodec I O)) =
+      fromJson (realCodec I O) (toJson (realCodec I O) m))
+    (hrep : ∀ r, (r ∈ m.an ∨ r ∈ m.ns ∨ r ∈ m.ar) → Representable (realCodec I O) r) :
+    reencodeDns Y (realCodec I O) (prettifyDns Y (realCodec I O) m) = some { m with z := 0 } :=
+  dns_view_roundtrip_partial Y (realCodec I O) (transcribed_codec_laws I O LO) m hclean hload hrep
+
+-- the transcriptions reject something and accept something
+example : utf8Dec [0xff] = none ∧ utf8Dec [0x68, 0xc3, 0xa9] = some [0x68, 0xe9] := by decide +kernel
+example : utf8Enc [0x68, 0xd800] = none := by decide +kernel
+
+end MitmVerif.Props.C50
+
+/-! ### A records: C22's `parseV4` reads back the dotted quad `str(IPv4Address(data))` produces -/
+namespace MitmVerif.Props.C50
+open MitmVerif MitmVerif.C49 MitmVerif.C50 MitmVerif.C50.Codecs
+
+private theorem renderOctet_eq (v : Nat) : Codecs.renderOctet v = MitmVerif.Lemmas.C22.renderOctet v := rfl
+private theorem dotted_eq (a b c d : Nat) : Codecs.dotted a b c d = MitmVerif.Lemmas.C22.dotted a b c d := rfl
+
+private theorem renderOctet_ascii : ∀ v : Fin 256, ∀ c ∈ Codecs.renderOctet v.val, c.toNat < 128 := by decide +kernel
+
+private theorem dotted_ascii (a b c d : UInt8) : (textOf (Codecs.dotted a.toNat b.toNat c.toNat d.toNat)).all (· < 128) = true := by
+  simp only [List.all_eq_true, textOf, List.mem_map, decide_eq_true_eq]
+  rintro x ⟨c', hc', rfl⟩
+  simp only [Codecs.dotted, List.mem_append, List.mem_cons] at hc'
+  have ha := renderOctet_ascii ⟨a.toNat, UInt8.toNat_lt a⟩
+  have hb := renderOctet_ascii ⟨b.toNat, UInt8.toNat_lt b⟩
+  have hc := renderOctet_ascii ⟨c.toNat, UInt8.toNat_lt c⟩
+  have hd := renderOctet_ascii ⟨d.toNat, UInt8.toNat_lt d⟩
+  rcases hc' with h | rfl | h | rfl | h | rfl | h
+  · exact ha _ h
+  · decide
+  · exact hb _ h
+  · decide
+  · exact hc _ h
+  · decide
+  · exact hd _ h
+
+private theorem be32_quad (a b c d : UInt8) :
+    be32 (((a.toNat * 256 + b.toNat) * 256 + c.toNat) * 256 + d.toNat) = [a, b, c, d] := by
+  have ha := UInt8.toNat_lt a
+  have hb := UInt8.toNat_lt b
+  have hc := UInt8.toNat_lt c
+  have hd := UInt8.toNat_lt d
+  have h1 : (((a.toNat * 256 + b.toNat) * 256 + c.toNat) * 256 + d.toNat) / 16777216 = a.toNat := by omega
+  have h2 : (((a.toNat * 256 + b.toNat) * 256 + c.toNat) * 256 + d.toNat) / 65536 % 256 = b.toNat := by omega
+  have h3 : (((a.toNat * 256 + b.toNat) * 256 + c.toNat) * 256 + d.toNat) / 256 % 256 = c.toNat := by omega
+  have h4 : (((a.toNat * 256 + b.toNat) * 256 + c.toNat) * 256 + d.toNat) % 256 = d.toNat := by omega
+  simp [be32, h1, h2, h3, h4]
+
+/-- **A records.** `IPv4Address(str(IPv4Address(data))).packed = data` for every 4-byte rdata, with ipaddress's string
+    parser as transcribed in C22 (no hypothesis) -/
+theorem ip4_dec_enc (data : Bytes) (s : List Nat) (h : ip4Dec data = some s) : ip4Enc s = some data := by
+  unfold ip4Dec at h
+  match data, h with
+  | [a, b, c, d], h =>
+    simp only [Option.some.injEq] at h
+    subst h
+    have hp := MitmVerif.Lemmas.C22.parseV4_dotted a.toNat b.toNat c.toNat d.toNat
+      (UInt8.toNat_lt a) (UInt8.toNat_lt b) (UInt8.toNat_lt c) (UInt8.toNat_lt d)
+    have hasc := dotted_ascii a b c d
+    rw [dotted_eq] at hasc
+    simp only [ip4Enc, bytesOf_textOf, dotted_eq, hp, Option.map_some, be32_quad]
+    rw [if_pos hasc]
+
+/-- the marker string "0x… (invalid … data)" is never a dotted quad: `IPv4Address(marker)` raises, so an A record with
+    a wrong data length takes the hex fallback (this was an assumed law, `CodecLaws.strict_rejects`, for type A) -/
+theorem ip4_rejects_marker (tn : List Nat) (b : Bytes) : ip4Enc (invalidStr tn b) = none := by
+  unfold ip4Enc
+  split
+  · have hshape : ∃ rest, bytesOf (invalidStr tn b) = 0x30 :: 0x78 :: rest := by
+      exact ⟨bytesOf (hexChars b ++ invalidTail tn), by simp [invalidStr, hexStr, bytesOf]⟩
+    obtain ⟨rest, hr⟩ := hshape
+    rw [hr]
+    have hsplit : ∃ p ps, C22.splitOn 0x2e (0x30 :: 0x78 :: rest) = (0x30 :: 0x78 :: p) :: ps := by
+      cases hs : C22.splitOn 0x2e rest with
+      | nil => exact absurd hs (MitmVerif.Lemmas.C22.splitOn_ne_nil _ _)
+      | cons p ps => exact ⟨p, ps, by simp [C22.splitOn, hs]⟩
+    obtain ⟨p, ps, hsp⟩ := hsplit
+    have hoct : C22.parseOctet (0x30 :: 0x78 :: p) = none := by
+      simp [C22.parseOctet, C22.isDigit]
+    simp only [C22.parseV4, hsp, Option.map_eq_none_iff]
+    split
+    · rfl
+    · split
+      · rfl
+      · split
+        · rename_i heq
+          simp only [List.cons.injEq] at heq
+          obtain ⟨rfl, _⟩ := heq
+          simp [hoct]
+        · rfl
+  · rfl
+
+/-- the codec with A, TXT and NS/CNAME/PTR transcribed satisfies the codec laws as soon as AAAA and HTTPS do -/
+theorem transcribed_codec_laws_A (I : C25.Idna) (O : Codec) (LO : CodecLaws O) : CodecLaws (realCodecA I O) where
+  dec_enc := by
+    intro t b j h
+    simp only [realCodecA] at h ⊢
+    by_cases h1 : t = 1
+    · simp only [h1, if_true] at h ⊢
+      cases hd : ip4Dec b with
+      | none => simp [hd] at h
+      | some s => simp only [hd, Option.map_some, Option.some.injEq] at h; subst h; exact ip4_dec_enc b s hd
+    · simp only [h1, if_false] at h ⊢
+      exact (transcribed_codec_laws I O LO).dec_enc t b j h
+  strict_rejects := by
+    intro t tn b hs
+    simp only [realCodecA]
+    by_cases h1 : t = 1
+    · simp only [h1, if_true]; exact ip4_rejects_marker tn b
+    · simp only [h1, if_false]; exact (transcribed_codec_laws I O LO).strict_rejects t tn b hs
+
+/-- **C50 (DNS view round trip, A / TXT / NS / CNAME / PTR codecs transcribed).** The parameters left are YAML, Python's
+    idna codec for ACE labels (no law needed) and the AAAA / HTTPS part `O` (HTTPS: `https_reencode_exact`). -/
+theorem dns_view_roundtrip_transcribed_A (Y : Yaml) (I : C25.Idna) (O : Codec) (LO : CodecLaws O) (m : Msg)
+    (hclean : Clean (Y.dump (toJson (realCodecA I O) m)))
+    (hload : (Y.load (Y.dump (toJson (realCodecA I O) m))).bind (fromJson (realCodecA I O)) =
+      fromJson (realCodecA I O) (toJson (realCodecA I O) m))
+    (hrep : ∀ r, (r ∈ m.an ∨ r ∈ m.ns ∨ r ∈ m.ar) → Representable (realCodecA I O) r) :
+    reencodeDns Y (realCodecA I O) (prettifyDns Y (realCodecA I O) m) = some { m with z := 0 } :=
+  dns_view_roundtrip_partial Y (realCodecA I O) (transcribed_codec_laws_A I O LO) m hclean hload hrep
+
+example : ip4Dec [192, 0, 2, 1] = some (cpsOf "192.0.2.1") ∧ ip4Dec [1, 2, 3] = none := by decide +kernel
+
+end MitmVerif.Props.C50
+/-! ### the symbol texts are clean (they are three of the `internal` pieces of the Dumper model, C49 `dumper_output_clean`'s `hint`) -/
+namespace MitmVerif.Props.C50
+open MitmVerif MitmVerif.C49 MitmVerif.C50 MitmVerif.Gen.C50
+
+private theorem digit_allowed (c : Char) (h : c.isDigit = true) : allowed c.toNat = true := by
+  have h' : 48 ≤ c.toNat ∧ c.toNat ≤ 57 := by
+    unfold Char.isDigit at h
+    rw [Bool.and_eq_true] at h
+    exact ⟨of_decide_eq_true h.1, of_decide_eq_true h.2⟩
+  have hcc : isCc c.toNat = false := by
+    unfold isCc
+    have h1 : ¬ c.toNat < 32 := by omega
+    have h3 : ¬ (127 ≤ c.toNat) := by omega
+    simp [h1, h3]
+  simp [allowed, hcc]
+
+/-- `to_str(n)` of any symbol table whose names and prefix are clean is clean, for every n -/
+private theorem toStr_clean (tab : List (Nat × String)) (pre : String)
+    (htab : ∀ e ∈ tab, (e.2.toList.map Char.toNat).all allowed = true)
+    (hpre : (pre.toList.map Char.toNat).all allowed = true) (n : Nat) :
+    Clean ((toStr tab pre n).map Char.toNat) := by
+  unfold toStr
+  split
+  · rename_i s hs
+    have hm := lookup_mem' tab n s hs
+    have := htab _ hm
+    intro c hc
+    exact (List.all_eq_true.mp this) c hc
+  · intro c hc
+    simp only [List.map_append, List.map_cons, List.mem_append, List.mem_cons, List.mem_map, List.map_nil,
+      List.not_mem_nil, or_false] at hc
+    rcases hc with (⟨ch, hch, hceq⟩ | hceq | ⟨ch, hch, hceq⟩) | hceq
+    · subst hceq; exact (List.all_eq_true.mp hpre) _ (List.mem_map.mpr ⟨ch, hch, rfl⟩)
+    · subst hceq; decide
+    · subst hceq
+      have : ch ∈ Nat.toDigits 10 n := by simpa [Nat.repr] using hch
+      exact digit_allowed ch (Nat.isDigit_of_mem_toDigits (by omega) (by omega) this)
+    · subst hceq; decide
+
+/-- `dns.types.to_str`, `dns.op_codes.to_str`, `response_codes.to_str`, `classes.to_str` never yield a control character,
+    whatever number the wire carries: these `internal` texts of the Dumper model need no hypothesis -/
+theorem type_text_clean (n : Nat) : Clean ((toStr typeNames "TYPE" n).map Char.toNat) :=
+  toStr_clean _ _ (by decide +kernel) (by decide +kernel) n
+theorem opcode_text_clean (n : Nat) : Clean ((toStr opNames "OPCODE" n).map Char.toNat) :=
+  toStr_clean _ _ (by decide +kernel) (by decide +kernel) n
+theorem rcode_text_clean (n : Nat) : Clean ((toStr rcodeNames "RCODE" n).map Char.toNat) :=
+  toStr_clean _ _ (by decide +kernel) (by decide +kernel) n
+theorem class_text_clean (n : Nat) : Clean ((toStr classNames "CLASS" n).map Char.toNat) :=
+  toStr_clean _ _ (by decide +kernel) (by decide +kernel) n
 
 end MitmVerif.Props.C50
